@@ -134,11 +134,11 @@ prop('C13', units=['fx'], level='proof',
 prop('C17_', units=[])
 del PROPS['C17_']
 
-prop('C18', units=['conv', 'qt'], level='proof',
-     technique='Verus: all of FxTracker (implied rate, signed shares == cash amount, implicit conversion amount, pairing errors, unpaired row => Err) and impl Ord for BrokerTx == (settlement date, timestamp, tiebreak class, tiebreak, row); questrade::sheet_to_txs and its per-row handler (the immediately-invoked closure, as a function): one transaction per BUY / SELL / DIS / LIQ row in row order with that row\'s dates, absolute quantity, price, absolute commission, currency and account-derived affiliate (spec function `emitted`), nothing for the documented non-trade activities, and per row the exact FX side effect (USD dividend = its net amount; non-CAD trade = -/+ price x quantity - commission; conversion leg handed on with its net amount and currency), and the whole-sheet cash conservation: the signed share total of the emitted FX rows equals the net USD cash flow of the conversions, USD dividends and non-CAD trades of the sheet (loop invariant fx_bal == flow_sum)',
-     level_text='Deductive proof (Verus) for the FX-tracking and ordering layer of the Questrade converter and for the row loop of sheet_to_txs, for all sheets converted without complaint: which rows yield a transaction, with which fields, what each row does to the FX ledger, and that the FX rows add up to the sheet\'s net USD cash flow. What a cell contains, upper-casing, the account-type pattern, date parsing and the symbol alias table are uninterpreted functions of the text (shim/xl_stubs.rs). Sheet reading itself (office crate, header map) is outside; blank-header independence is watched by witness D7.',
-     level_note=BK_NOTE + ' String::cmp is an uninterpreted total order; the ".FX" symbol concatenation is a hole. Unit qt: rewrites R29 (the row closure becomes fn row_body, captured variables as parameters, `row_num` dereferenced), R30 (match on string literals / String == literal -> if-chain over a stand-in string equality: Verus gives literal patterns no meaning), holes for the two literal action tables (with their contents), the alias look-up, memo concatenation, the clone of the FX rows; SheetReader, Range, Path are stand-ins.',
-     not_covered=['SheetReader / read_sheet_header (header name -> column; witness D7)', 'tx_export_convert_impl option filters (--account, --security, --no-fx, --no-sort): regex / iterator code'],
+prop('C18', units=['conv', 'qt', 'xlr'], level='proof',
+     technique='Verus: all of FxTracker (implied rate, signed shares == cash amount, implicit conversion amount, pairing errors, unpaired row => Err) and impl Ord for BrokerTx == (settlement date, timestamp, tiebreak class, tiebreak, row); questrade::sheet_to_txs and its per-row handler (the immediately-invoked closure, as a function): one transaction per BUY / SELL / DIS / LIQ row in row order with that row\'s dates, absolute quantity, price, absolute commission, currency and account-derived affiliate (spec function `emitted`), nothing for the documented non-trade activities, and per row the exact FX side effect (USD dividend = its net amount; non-CAD trade = -/+ price x quantity - commission; conversion leg handed on with its net amount and currency), and the whole-sheet cash conservation: the signed share total of the emitted FX rows equals the net USD cash flow of the conversions, USD dividends and non-CAD trades of the sheet (loop invariant fx_bal == flow_sum); excel.rs (unit xlr): read_sheet_header builds the name -> index table of the first row with positions counted over all cells (header_ok), SheetReader::get / get_str / get_opt_dec / get_dec hand out the cell of the current row under the last header cell of that name (spec function `cell`), whatever the column order and whatever blank or non-text header cells there are',
+     level_text='Deductive proof (Verus) for the FX-tracking and ordering layer of the Questrade converter and for the row loop of sheet_to_txs, for all sheets converted without complaint: which rows yield a transaction, with which fields, what each row does to the FX ledger, and that the FX rows add up to the sheet\'s net USD cash flow. What a cell contains, upper-casing, the account-type pattern, date parsing and the symbol alias table are uninterpreted functions of the text (shim/xl_stubs.rs). The header map and the cell access of excel.rs are verified in unit xlr on stand-ins for the office crate and for the std iterator adapters (each adapter = its strongest postcondition in terms of the closure contract); the SheetReader contract that unit qt assumes is derived there (qt_contract_get_str / qt_contract_get_dec). Witness D7 (blank header cell) stays as a run-time replay.',
+     level_note=BK_NOTE + ' String::cmp is an uninterpreted total order; the ".FX" symbol concatenation is a hole. Unit qt: rewrites R29 (the row closure becomes fn row_body, captured variables as parameters, `row_num` dereferenced), R30 (match on string literals / String == literal -> if-chain over a stand-in string equality: Verus gives literal patterns no meaning), holes for the two literal action tables (with their contents), the alias look-up, memo concatenation, the clone of the FX rows; Range, Path are stand-ins; in unit qt SheetReader is a stand-in whose contract is proved in unit xlr for a current row at least as wide as the header (rows of an office::Range all have its width: assumed of the crate). Unit xlr: rewrites R31 (closure with a tuple-pattern parameter -> |__p| { let (a, b) = __p; .. }), R32 (into_iter / HashMap::from_iter -> stand-in constructors of shim/office_stubs.rs, the adapter chain keeps its text), R26 (to_string / Debug text of a cell value = uninterpreted function of the value); String keys looked up by &str: two axioms (shim/office_stubs.rs strkey); Decimal::from_str / from_f64 are functions of their argument, from_i64 is exact.',
+     not_covered=['the office crate itself (xlsx decoding, that all rows of a Range have the same width)', 'tx_export_convert_impl option filters (--account, --security, --no-fx, --no-sort): regex / iterator code'],
      witnesses=['D7', 'D17'])
 
 prop('C20', units=['pdf', 'fmv'], level='proof',
@@ -159,3 +159,4 @@ ALL_UNITS.append('etr')
 ALL_UNITS.append('fmv')
 ALL_UNITS.append('smd')
 ALL_UNITS.append('qt')
+ALL_UNITS.append('xlr')
